@@ -266,6 +266,24 @@ def rule_retry(report, prog):
     g = prog.func('nfc.tag.tt2.Type2Tag.transceive')
     d = {a.arg: norm(v) for a, v in zip(g.node.args.args[-len(g.node.args.defaults):], g.node.args.defaults)}
     report.check(d == {'timeout': '0.1', 'retries': '2'}, 'C16-R3', key(g.qname, 'default: 1 + 2 attempts'), g.loc(), 'transceive defaults: %r' % d)
+    # retries are switched off only where a repetition would be wrong: the passively acknowledged second SECTOR SELECT packet.  Any
+    # other command sent with fewer attempts than the default does not survive a single transient error.
+    n_sites = 0
+    for fn in prog.functions.values():
+        if not fn.qname.startswith('nfc.tag.'):
+            continue
+        for c in walk_no_nested(fn.node):
+            if isinstance(c, ast.Call) and isinstance(c.func, ast.Attribute) and c.func.attr == 'transceive':
+                kw = {k.arg: k.value for k in c.keywords}
+                if 'retries' in kw:
+                    n_sites += 1
+                    v = try_const(kw['retries'])
+                    passive_ack = fn.qname == 'nfc.tag.tt2.Type2Tag.sector_select' and c.args and norm(c.args[0]) == 'sector_select_2'
+                    report.check(passive_ack or (isinstance(v, int) and v >= 2), 'C16-R3',
+                                 key(fn.qname, 'retries are reduced only for the passive-ack packet', c), fn.loc(c),
+                                 '%s sends `%s` with retries=%s: the command is not repeated after a transient error although a repetition would be safe'
+                                 % (fn.qname, norm(c), norm(kw['retries'])))
+    report.floor('C16-R3 explicit retries', n_sites, 1)
 
 
 def rule_activate(report, prog):
@@ -432,5 +450,6 @@ def activate_tt1""", 'C16-R4'),
             log.debug("invalid response %s", hexlify(data).decode())""", """        if len(data) > 16:
             log.debug("invalid response %s", hexlify(data).decode())""", 'C16-R'),
     ('tt3-block-data-length-test', 'nfc.tag.tt3', "        if len(data) != 1 + len(block_list) * 16:", "        if len(data) < 1:", 'C16-R'),
+    ('sector-select-first-packet-not-retried', 'nfc.tag.tt2', "            rsp = self.transceive(sector_select_1)", "            rsp = self.transceive(sector_select_1, retries=0)", 'C16-R3'),
 ]
 MUTANTS = [m for m in MUTANTS if m[4] != 'C16-NONE']
